@@ -15,7 +15,7 @@ Lemma in_bools (b : bool) : In b [false; true].
 Proof. destruct b; simpl; auto. Qed.
 
 Lemma in_all_cells sv ph sk va :
-  0 <= ph < 9 -> 0 <= va < 4 -> In (sv, ph, sk, va) all_cells.
+  0 <= ph < 13 -> 0 <= va < 4 -> In (sv, ph, sk, va) all_cells.
 Proof.
   intros Hp Hv. unfold all_cells.
   repeat (apply in_prod); try apply in_bools; apply in_zrange; simpl; lia.
@@ -36,7 +36,7 @@ Qed.
 
 Lemma table_all_spec rowf p :
   table_all rowf p = true ->
-  forall sv ph sk va t, 0 <= ph < 9 -> 0 <= va < 4 -> 0 <= t < 256 ->
+  forall sv ph sk va t, 0 <= ph < 13 -> 0 <= va < 4 -> 0 <= t < 256 ->
     p sv ph sk va t (lookup rowf sv ph sk 0 t) (lookup rowf sv ph sk va t) = true.
 Proof.
   intros H sv ph sk va t Hp Hv Ht. unfold table_all in H. rewrite forallb_forall in H.
@@ -53,6 +53,7 @@ Lemma tab_prekex : table_all gate_row p_prekex = true. Proof. vm_compute. reflex
 Lemma tab_preauth : table_all gate_row p_preauth = true. Proof. vm_compute. reflexivity. Qed.
 Lemma tab_role : table_all gate_row p_role = true. Proof. vm_compute. reflexivity. Qed.
 Lemma tab_strict : table_all gate_row p_strict = true. Proof. vm_compute. reflexivity. Qed.
+Lemma tab_stale : table_all gate_row p_stale = true. Proof. vm_compute. reflexivity. Qed.
 Lemma tab_postauth : table_all gate_row p_postauth = true. Proof. vm_compute. reflexivity. Qed.
 Lemma tab_unassigned : table_all gate_row p_unassigned = true. Proof. vm_compute. reflexivity. Qed.
 Lemma tab_malformed : table_all gate_row p_malformed = true. Proof. vm_compute. reflexivity. Qed.
@@ -63,7 +64,7 @@ Proof. destruct a, b; simpl; split; intros H; try reflexivity; try discriminate.
 
 Section TableFacts.
   Variables (sv : bool) (ph : Z) (sk : bool) (va t : Z).
-  Hypothesis Hph : 0 <= ph < 9.
+  Hypothesis Hph : 0 <= ph < 13.
   Hypothesis Hva : 0 <= va < 4.
   Hypothesis Ht : 0 <= t < 256.
   Let v := lookup gate_row sv ph sk va t.
@@ -82,11 +83,18 @@ Section TableFacts.
     assert (E : (ph <=? 2) = true) by (apply Z.leb_le; exact Hp). rewrite E in H. exact H.
   Qed.
 
-  Lemma fact_preauth : ph <= 4 -> v = VH -> t <= 79.
+  Lemma fact_preauth : preauth_phase sv ph = true -> v = VH -> t <= 79.
   Proof.
     intros Hp Hv. pose proof (table_all_spec _ _ tab_preauth sv ph sk va t Hph Hva Ht) as H. unfold p_preauth in H.
-    fold v in H. rewrite Hv in H. simpl verdict_eqb in H. rewrite andb_true_r in H.
-    assert (E : (ph <=? 4) = true) by (apply Z.leb_le; exact Hp). rewrite E in H. apply Z.leb_le. exact H.
+    fold v in H. rewrite Hv, Hp in H. simpl in H. apply Z.leb_le. exact H.
+  Qed.
+
+  Lemma fact_stale : no_attempt sv ph = true -> 60 <= t <= 79 -> v = VF.
+  Proof.
+    intros Hp Hr. pose proof (table_all_spec _ _ tab_stale sv ph sk va t Hph Hva Ht) as H. unfold p_stale in H.
+    fold v in H. rewrite Hp in H.
+    assert (E1 : (60 <=? t) = true) by (apply Z.leb_le; lia). assert (E2 : (t <=? 79) = true) by (apply Z.leb_le; lia).
+    rewrite E1, E2 in H. simpl in H. apply verdict_eqb_spec. exact H.
   Qed.
 
   Lemma fact_role : foreign_to sv t = true -> v <> VH.
@@ -106,11 +114,11 @@ Section TableFacts.
     - assert (E0 : (ph =? 0) = false) by (apply Z.eqb_neq; lia). rewrite E0 in H. apply verdict_eqb_spec. exact H.
   Qed.
 
-  Lemma fact_postauth : 5 <= ph ->
+  Lemma fact_postauth : postauth_phase sv ph = true ->
     (sv = true -> t = 50 -> v = VI \/ v = VF) /\ (sv = false -> t = 51 \/ t = 52 -> v = VF).
   Proof.
     intros Hp. pose proof (table_all_spec _ _ tab_postauth sv ph sk va t Hph Hva Ht) as H. unfold p_postauth in H.
-    fold v in H. assert (E : (5 <=? ph) = true) by (apply Z.leb_le; exact Hp). rewrite E in H. split.
+    fold v in H. rewrite Hp in H. split.
     - intros Hs Ht50. subst sv t. simpl in H. apply orb_true_iff in H. destruct H as [H|H];
         apply verdict_eqb_spec in H; auto.
     - intros Hs Htt. subst sv. simpl in H. apply verdict_eqb_spec.
